@@ -18,13 +18,13 @@ MUTANTS = [
  ("stop-on-level0", "toasty/pyramid.py", "if pos == self._apex:\n                    break", "if pos.n == 0:\n                    break", ["C01"], []),
  ("seed-depth-2", "toasty/pyramid.py", "if pos.n == self.depth - 1 and is_live:", "if pos.n == self.depth - 2 and is_live:", ["C01"], []),
  ("done-before-callback", "toasty/pyramid.py", "        callback(pos)\n        done_queue.put(pos)", "        done_queue.put(pos)\n        callback(pos)", ["C01", "C02"], []),
- ("visit-set-before-join-thread", "toasty/pyramid.py", "        ready_queue.close()\n        ready_queue.join_thread()\n        done_event.set()\n\n        for w in workers:\n            w.join()\n\n\nclass PyramidReductionIterator", "        ready_queue.close()\n        done_event.set()\n        ready_queue.join_thread()\n\n        for w in workers:\n            w.join()\n\n\nclass PyramidReductionIterator", ["C03"], ["C01"]),
- ("visit-no-join-thread", "toasty/pyramid.py", "        ready_queue.close()\n        ready_queue.join_thread()\n        done_event.set()\n\n        for w in workers:\n            w.join()\n\n\nclass PyramidReductionIterator", "        ready_queue.close()\n        done_event.set()\n\n        for w in workers:\n            w.join()\n\n\nclass PyramidReductionIterator", ["C03"], []),
+ ("visit-set-before-join-thread", "toasty/pyramid.py", "        ready_queue.close()\n        ready_queue.join_thread()\n        done_event.set()\n\n        for w in workers:\n            w.join()\n\n        check_workers(workers)\n\n\nclass PyramidReductionIterator", "        ready_queue.close()\n        done_event.set()\n        ready_queue.join_thread()\n\n        for w in workers:\n            w.join()\n\n        check_workers(workers)\n\n\nclass PyramidReductionIterator", ["C03"], ["C01"]),
+ ("visit-no-join-thread", "toasty/pyramid.py", "        ready_queue.close()\n        ready_queue.join_thread()\n        done_event.set()\n\n        for w in workers:\n            w.join()\n\n        check_workers(workers)\n\n\nclass PyramidReductionIterator", "        ready_queue.close()\n        done_event.set()\n\n        for w in workers:\n            w.join()\n\n        check_workers(workers)\n\n\nclass PyramidReductionIterator", ["C03"], []),
  ("visit-worker-exit-on-empty", "toasty/pyramid.py", "            args = ready_queue.get(True, timeout=1)\n        except Empty:\n            if done_event.is_set():\n                break\n            continue", "            args = ready_queue.get(True, timeout=1)\n        except Empty:\n            break", ["C03"], []),
  ("walk-worker-exit-on-empty", "toasty/pyramid.py", "            pos = ready_queue.get(True, timeout=1)\n        except Empty:\n            if done_event.is_set():\n                break\n            continue", "            pos = ready_queue.get(True, timeout=1)\n        except Empty:\n            break", ["C01"], []),
  ("transform-set-before-join", "toasty/transform.py", "    queue.close()\n    queue.join_thread()\n    done_event.set()", "    queue.close()\n    done_event.set()\n    queue.join_thread()", ["C03"], []),
- ("visit-no-worker-join", "toasty/pyramid.py", "        done_event.set()\n\n        for w in workers:\n            w.join()\n\n\nclass PyramidReductionIterator", "        done_event.set()\n\n\nclass PyramidReductionIterator", ["C03"], []),
- ("visit-wrong-tile", "toasty/pyramid.py", "                    ready_queue.put((pos, tile))", "                    ready_queue.put((pos, prev_tile if (prev_tile := getattr(self, '_pt', None)) is not None and pos.x % 2 else tile)); self._pt = tile", ["C03"], []),
+ ("visit-no-worker-join", "toasty/pyramid.py", "        done_event.set()\n\n        for w in workers:\n            w.join()\n\n        check_workers(workers)\n\n\nclass PyramidReductionIterator", "        done_event.set()\n\n        check_workers(workers)\n\n\nclass PyramidReductionIterator", ["C03"], []),
+ ("visit-wrong-tile", "toasty/pyramid.py", "                    put_to_workers(ready_queue, (pos, tile), workers, done_event)", "                    ready_queue.put((pos, prev_tile if (prev_tile := getattr(self, '_pt', None)) is not None and pos.x % 2 else tile)); self._pt = tile", ["C03"], []),
  ("workers-never-checked", "toasty/par_util.py", "        if code is not None and code != 0:", "        if False:", ["C19"], ["C03"]),
  ("walk-no-idle-check", "toasty/pyramid.py", "                    try:\n                        check_workers(workers)\n                    except Exception:\n                        done_event.set()\n                        raise\n                    continue", "                    continue", ["C19"], ["C01"]),
  ("transform-no-final-check", "toasty/transform.py", "    check_workers(workers)\n", "    pass\n", ["C19"], ["C03"]),
@@ -44,6 +44,9 @@ MUTANTS = [
  ("replace-before-copy", "toasty/pipeline/local_io.py", "        with open(tpath, 'wb') as f:\n            shutil.copyfileobj(source, f)\n\n        os.replace(tpath, fpath)", "        open(tpath, 'wb').close()\n        os.replace(tpath, fpath)\n        with open(fpath, 'r+b') as f:\n            shutil.copyfileobj(source, f)", ["C18"], []),
  ("index-first", "toasty/pipeline/__init__.py", "                temp = filenames[-1]\n                filenames[-1] = 'index.wtml'", "                temp = filenames[0]\n                filenames[0] = 'index.wtml'", ["C18"], []),
  ("refresh-any-file", "toasty/pipeline/cli.py", 'if mgr._pipeio.check_exists(uniq_id, "index.wtml"):', 'if mgr._pipeio.check_exists(uniq_id):', ["C18"], []),
+ ("mt-worker-no-flip", "toasty/multi_tan.py", "            continue\n\n        if image.get_parity_sign() != tile_parity_sign:\n            image.flip_parity()", "            continue\n", ["C09"], []),
+ ("mt-worker-image-y", "toasty/multi_tan.py", "            if tile_parity_sign == 1:\n                image_y = image.height - (image_y + height)\n                tile_y = 256 - (tile_y + height)\n\n            ix_idx", "            if tile_parity_sign == 1:\n                image_y = image.height - (image_y + height) - (1 if image_y else 0)\n                tile_y = 256 - (tile_y + height)\n\n            ix_idx", ["C09"], []),
+ ("mt-crpix-from-first", "toasty/multi_tan.py", "        ref_headers[\"CRPIX1\"] = this_crpix1 + 1 + (mtdesc.crxmin - global_crxmin)", "        ref_headers[\"CRPIX1\"] = this_crpix1 + 1 + (self._descs[0].crxmin - global_crxmin)", ["C09"], []),
  ("lxy-swapped", "toasty/pyramid.py", "            \"L{}X{}Y{}.{}\".format(level, ix, iy, format or self._default_format),", "            \"L{}X{}Y{}.{}\".format(level, iy, ix, format or self._default_format),", ["C17"], ["C02"]),
  ("sampler-no-flip", "toasty/toast.py", "sampled_data = sampled_data[::-1]", "sampled_data = sampled_data", ["C06"], ["C03"]),
 ]
